@@ -296,10 +296,7 @@ def directed_round(so, parts, qsize, batch, deadline):
     stop.set()
     tick_go.set()
     ticker.join(5)
-    try:
-        o.destroy()
-    except Exception:   # noqa
-        pass
+    qc.close_node(o)
     viol = []
     if tick_err:
         viol.append(("tick-thread:exception-escaped", tick_err[0]))
@@ -451,10 +448,7 @@ def nested_round(so, parts, n_nodes, batch, deadline):
         info["last_applied"] = last
     finally:
         for o in objs:
-            try:
-                o.destroy()
-            except Exception:   # noqa
-                pass
+            qc.close_node(o)
         nap(0.05)
         lg.removeHandler(trap)
         lg.propagate = old_prop
@@ -574,10 +568,7 @@ def run_round(so, parts, rng, cfg, N, M, qsize, batch, deadline):
     if ticker is not None:
         ticker.join(5)
     for o in objs:
-        try:
-            o.destroy()
-        except Exception:   # noqa
-            pass
+        qc.close_node(o)
     if cfg == "A":
         nap(0.01)
     if tick_err:
@@ -834,8 +825,9 @@ NEED_C12 = ["rounds_N_quiesced", "nested_from_raising_cb_leader", "nested_from_r
 
 def run(ctx):
     so = qc.load(ctx)
+    fds = qc.fd_count()
     with qc.real_runtime(so):       # genuine clock / PRNG: elections need real time to pass
-        return _run(ctx, so)
+        return qc.fd_audit(_run(ctx, so), fds)
 
 
 def _run(ctx, so):
